@@ -30,6 +30,7 @@ var families = map[string]famDef{
 	"backends":  {"C18", famBackends, Runner{}},
 	"flush":     {"C03", famFlush, exactRunner},
 	"versions":  {"C02", famVersions, exactRunner},
+	"faults":    {"C12", famFaults, Runner{}},
 	"filecrash": {"C17", famFileCrash, Runner{}},
 	"diffcost":  {"C15", famDiffCost, exactRunner},
 }
